@@ -1624,6 +1624,26 @@ class ProductSpaceArrayWeighting(ArrayWeighting):
         super(ProductSpaceArrayWeighting, self).__init__(
             array, impl='numpy', exponent=exponent)
 
+    def __eq__(self, other):
+        """Return ``self == other``.
+
+        The array has one entry per component of the product space, hence
+        it is cheap to compare entry-wise. This makes subspaces created by
+        indexing (which copies the selected weights) compare equal.
+        """
+        if other is self:
+            return True
+
+        return (type(other) is type(self) and
+                self.impl == other.impl and
+                self.exponent == other.exponent and
+                np.array_equal(self.array, other.array))
+
+    def __hash__(self):
+        """Return ``hash(self)``."""
+        return hash((type(self), self.impl, self.exponent,
+                     tuple(self.array.ravel().tolist())))
+
     def inner(self, x1, x2):
         """Calculate the array-weighted inner product of two elements.
 
